@@ -74,7 +74,7 @@ register("C01", ["c01", "c02", "c03", "phase_gate", "c04", "sigchain", "c07", "c
          ["the ChonkyBFT safety argument for the combination of the mechanisms (spec/)", "C07 lemma"],
          TRUSTED)
 
-register("C15", ["c15", "hazards", "pins"],
+register("C15", ["c15", "hazards"],
          "The numeric clause (at most b + T/r + 1 permits per window, arrival-order service under every interleaving) quantifies over runtime values and schedules and is NOT decided. This check decides the structural mechanisms that are necessary for it: acquire reserves permits only after its last cancellation point and under the fair mutex held from lock to reservation; limiter state has exactly three writers and permits are consumed only in Permit::drop after refreshing; every OPEN is preceded by a limiter permit in its iteration; handlers run only in tasks spawned after a stream reservation from a queue of R::INFLIGHT streams, one request per stream; every production server/client is created with the rate of its own RPC kind; a request above the burst never returns; and the deadline arithmetic is pinned to its formulas (start + duration_or_max(refresh*need), quotient and remainder of the same nanosecond count).",
          ["tokio Mutex is FIFO-fair as documented", "the ctx clock is monotone"],
          TRUSTED)
